@@ -492,7 +492,8 @@ Fixpoint run (fl : rflags) (ops : list hop) (h : hub) : hub * list res :=
 
 (** ** What a caller can see: every read API, canonicalised to lists of integer rows.
     Sections: datasets; next dataset id; deleted set; namespaces; URI ids; jobs; tokens; schedule; last results;
-    clients/ACLs of the probed client names; stored providers; live providers; full-sync flags;
+    clients/ACLs of the probed client names; stored providers; live providers; each stored provider as its consumers
+    resolve it; full-sync flags;
     then per registered dataset (core.Dataset excepted) its listing, its change feed, its next token,
     its latest-only feed. *)
 Definition snap := list (list (list Z)).
@@ -550,6 +551,12 @@ Definition obs (clients : list string) (h : hub) : snap :=
                      end) clients;
     map (fun p : Z * Z => [fst p; snd p]) (d_prov (h_prov h));
     map (fun p : Z * Z => [fst p; snd p]) (m_tp (h_prov h));
+    (* every stored provider resolved the way its consumers do (job sources / sinks / transforms, proxy datasets):
+       TokenProviders.Get(strings.ToLower(name)) - found?, the provider *)
+    map (fun p : Z * Z => fst p :: match assoc (lower (fst p)) (m_tp (h_prov h)) with
+                                   | Some u => [1; u]
+                                   | None => [0; 0]
+                                   end) (d_prov (h_prov h));
     map (fun p : Z * dsrec => [fst p; bz (amem (r_id (snd p)) (m_fs s))]) (m_reg s) ]
   ++ flat_map (fun p : Z * dsrec => if fst p <? 0 then [] else obs_feed s (r_id (snd p))) (m_reg s).
 
